@@ -13,7 +13,7 @@ import os
 import itertools
 import random
 
-from common import Report, Violation, parallel_map, h, run_sentinels
+from common import Report, Violation, parallel_map, h, run_sentinels, panic_site
 from schedlib import run_scenario, stmt_rows, trace_spec, interleaving_signature, BG
 from sqlcase import ms
 
@@ -115,7 +115,7 @@ def judge(sc, rows, writers, out):
     if out.get("error"):
         return [("database-open-failed", out["error"])], info
     for p in out.get("panics", []):
-        v.append(("panic:" + p.split("|")[0].replace("/repo/", ""), p[:200]))
+        v.append(("panic:" + panic_site(p), p[:200]))
     # writer histories
     sess = []
     actors = {a["name"]: i for i, a in enumerate(sc["actors"])}
